@@ -27,7 +27,7 @@ checks = []
 na = []
 for pid in sorted(props):
     c = claims.CLAIMS.get(pid)
-    if c is None or not os.path.exists(os.path.join(VERIF, "sa", "rules", pid.lower() + ".py")):
+    if c is None or pid not in claims.READY or not os.path.exists(os.path.join(VERIF, "sa", "rules", pid.lower() + ".py")):
         na.append({"property_id": pid,
                    "reason": (c or {}).get("na_reason", "check not built yet in this session (see DESIGN.md section 7 for the planned rules)")})
         continue
